@@ -262,3 +262,15 @@ Proof.
       pose proof (Hf v (or_introl eq_refl) Ek) as Hfv.
       apply str_eqb_eq in Ek. subst k. rewrite Hm, Hfv in E. discriminate.
 Qed.
+
+(* ---- CARGO_PKG_RUST_VERSION against the manifest value (known finding F15a) *)
+
+Lemma rust_version_outside_known : forall p,
+  rust_version_two_components p = false ->
+  env_get K.CARGO_PKG_RUST_VERSION (package_layer p) = Some (unwrap_or_default (p_rust_version p)).
+Proof.
+  intros p H. unfold package_layer. cbn [env_get].
+  change (str_eqb K.CARGO_PKG_RUST_VERSION K.CARGO_PKG_RUST_VERSION) with true. cbn iota.
+  unfold rust_version_two_components in H. unfold pad_rust_version.
+  destruct (p_rust_version p) as [v|]; [|reflexivity]. rewrite H. reflexivity.
+Qed.
